@@ -271,6 +271,51 @@ func (m *miniInterp) execList(list []ast.Stmt, env *menv) (bool, outcome, error)
 					return done, o, err
 				}
 			}
+		case *ast.SwitchStmt:
+			// tagless switch = if / else-if ladder (no fallthrough, no break)
+			if st.Init != nil || st.Tag != nil {
+				return false, outcome{}, und("switch with init or tag")
+			}
+			var chosen, deflt *ast.CaseClause
+			for _, cs := range st.Body.List {
+				cc := cs.(*ast.CaseClause)
+				if cc.List == nil {
+					deflt = cc
+					continue
+				}
+				if chosen != nil {
+					continue
+				}
+				for _, ce := range cc.List {
+					c, err := m.evalE(ce, env)
+					if err != nil {
+						return false, outcome{}, err
+					}
+					if c.b {
+						chosen = cc
+						break
+					}
+				}
+			}
+			if chosen == nil {
+				chosen = deflt
+			}
+			if chosen != nil {
+				bad := false
+				ast.Inspect(chosen, func(n ast.Node) bool {
+					if b, ok := n.(*ast.BranchStmt); ok && (b.Tok == token.FALLTHROUGH || b.Tok == token.BREAK || b.Tok == token.GOTO) {
+						bad = true
+					}
+					return true
+				})
+				if bad {
+					return false, outcome{}, und("branch statement inside switch")
+				}
+				done, o, err := m.execList(chosen.Body, env)
+				if err != nil || done {
+					return done, o, err
+				}
+			}
 		case *ast.ReturnStmt:
 			var rs []mval
 			for _, r := range st.Results {
@@ -644,12 +689,74 @@ func runTimepbAddStd(c *core.Ctx, pkg *packages.Package, fns map[string]*ast.Fun
 	fresh := map[types.Object]string{} // local -> how it was created
 	checked := map[types.Object]bool{} // overflowPanic(t, local, d < 0) seen
 	nRet := 0
+	// single-assignment value locals (x := e, never written again, address never taken) are read through
+	defs := map[types.Object]ast.Expr{}
+	writes := map[types.Object]int{}
+	ast.Inspect(fd.Body, func(n ast.Node) bool {
+		switch t := n.(type) {
+		case *ast.AssignStmt:
+			for i, l := range t.Lhs {
+				if id, ok := l.(*ast.Ident); ok {
+					o := info.ObjectOf(id)
+					writes[o]++
+					if t.Tok == token.DEFINE && len(t.Lhs) == len(t.Rhs) {
+						defs[o] = t.Rhs[i]
+					}
+				}
+			}
+		case *ast.IncDecStmt:
+			if id, ok := t.X.(*ast.Ident); ok {
+				writes[info.ObjectOf(id)] += 2
+			}
+		case *ast.UnaryExpr:
+			if id, ok := ast.Unparen(t.X).(*ast.Ident); ok && t.Op == token.AND {
+				writes[info.ObjectOf(id)] += 2
+			}
+		}
+		return true
+	})
+	// reading through a local is only sound while the parameters keep their values
+	for _, f := range fd.Type.Params.List {
+		for _, n := range f.Names {
+			if writes[info.ObjectOf(n)] > 0 {
+				defs = map[types.Object]ast.Expr{}
+			}
+		}
+	}
+	var render func(x ast.Expr) string
+	render = func(x ast.Expr) string {
+		switch t := ast.Unparen(x).(type) {
+		case *ast.Ident:
+			o := info.ObjectOf(t)
+			if d, ok := defs[o]; ok && writes[o] == 1 {
+				if _, isPtr := info.TypeOf(t).(*types.Pointer); !isPtr {
+					return render(d)
+				}
+			}
+			return t.Name
+		case *ast.SelectorExpr:
+			return render(t.X) + "." + t.Sel.Name
+		case *ast.CallExpr:
+			var as []string
+			for _, a := range t.Args {
+				as = append(as, render(a))
+			}
+			return render(t.Fun) + "(" + strings.Join(as, ", ") + ")"
+		case *ast.BinaryExpr:
+			return render(t.X) + " " + t.Op.String() + " " + render(t.Y)
+		case *ast.UnaryExpr:
+			return t.Op.String() + render(t.X)
+		case *ast.StarExpr:
+			return "*" + render(t.X)
+		}
+		return types.ExprString(x)
+	}
 	var walk func(list []ast.Stmt, guardZero bool)
 	walk = func(list []ast.Stmt, guardZero bool) {
 		for _, s := range list {
 			switch t := s.(type) {
 			case *ast.IfStmt:
-				walk(t.Body.List, types.ExprString(t.Cond) == dP+" == 0")
+				walk(t.Body.List, render(t.Cond) == dP+" == 0")
 				if b, ok := t.Else.(*ast.BlockStmt); ok {
 					walk(b.List, false)
 				}
@@ -665,7 +772,7 @@ func runTimepbAddStd(c *core.Ctx, pkg *packages.Package, fns map[string]*ast.Fun
 						fresh[info.ObjectOf(id)] = "copy"
 					default:
 						if call, ok := t.Rhs[0].(*ast.CallExpr); ok && core.QualName(core.CalleeObj(info, call)) == "google.golang.org/protobuf/types/known/timestamppb.New" &&
-							len(call.Args) == 1 && types.ExprString(call.Args[0]) == tP+".AsTime().Add("+dP+")" {
+							len(call.Args) == 1 && render(call.Args[0]) == tP+".AsTime().Add("+dP+")" {
 							fresh[info.ObjectOf(id)] = "new"
 						}
 					}
@@ -673,7 +780,7 @@ func runTimepbAddStd(c *core.Ctx, pkg *packages.Package, fns map[string]*ast.Fun
 			case *ast.ExprStmt:
 				if call, ok := t.X.(*ast.CallExpr); ok && len(call.Args) == 3 {
 					if f, ok := core.CalleeObj(info, call).(*types.Func); ok && f.Pkg() == pkg.Types && f.Name() == "overflowPanic" {
-						if types.ExprString(call.Args[0]) == tP && types.ExprString(call.Args[2]) == dP+" < 0" {
+						if render(call.Args[0]) == tP && render(call.Args[2]) == dP+" < 0" {
 							if id, ok := call.Args[1].(*ast.Ident); ok {
 								checked[info.ObjectOf(id)] = true
 							}
